@@ -19,7 +19,18 @@ import (
 
 type Rand struct{ s uint64 }
 
-func NewRand(seed uint64) *Rand { return &Rand{s: seed*0x9E3779B97F4A7C15 + 0x1234567} }
+// NewRand: the initial state is a hash of the seed (SplitMix64 finaliser, twice), so that the streams
+// of consecutive seeds are unrelated (seed*gamma alone would make seed+1 the same stream one step on).
+func NewRand(seed uint64) *Rand {
+	z := seed + 0x1234567
+	for i := 0; i < 2; i++ {
+		z += 0x9E3779B97F4A7C15
+		z = (z ^ (z >> 30)) * 0xBF58476D1CE4E5B9
+		z = (z ^ (z >> 27)) * 0x94D049BB133111EB
+		z ^= z >> 31
+	}
+	return &Rand{s: z}
+}
 
 func (r *Rand) U64() uint64 {
 	r.s += 0x9E3779B97F4A7C15
